@@ -335,6 +335,7 @@ func runC15(c *Ctx) {
 	runC15Wiring(c, names)
 	shareRule(c, "C08", runC08, []string{"C08.R1", "C08.R2"}, "R7", "COV+TAB", "on the JSON encoding of the hop the receiver reads every field the exporter writes, with the reader that accepts the writer's spelling (same rules as C08.R1/R2): e.g. non-finite doubles written as strings are read with the NaN/Inf-aware helper", 100)
 	runC15Throttle(c)
+	runC15Shares4(c)
 }
 
 func runC15Wiring(c *Ctx, names map[int64]string) {
@@ -663,9 +664,9 @@ func runC15Wiring(c *Ctx, names map[int64]string) {
 	{
 		sub := NewCtx(p, "C16", c.Tier, c.Config)
 		runC16(sub)
-		c.Rule("R6", "TAB+PROV", "compression on the hop (same rules as C16.R1/R4/R5): every accepted compression type is encoded and decoded by the same codec, Content-Encoding is set iff the client compressed, and the compressed body buffer is request-local", 8)
+		c.Rule("R6", "TAB+PROV", "compression on the hop (same rules as C16.R1/R4/R5/R8/R11/R12): every accepted compression type is encoded and decoded by the same codec, Content-Encoding is set iff the client compressed, the compressed body buffer is request-local, the server decoders accept everything the client encoders can produce (no decoder window below the encoders' largest, every gzip member read) and a pooled decoder serves one request at a time", 8)
 		for _, o := range sub.Obs {
-			if (o.Rule == "C16.R1" || o.Rule == "C16.R4" || o.Rule == "C16.R5") && !strings.HasPrefix(o.Construct, "floor:") {
+			if (o.Rule == "C16.R1" || o.Rule == "C16.R4" || o.Rule == "C16.R5" || o.Rule == "C16.R8" || o.Rule == "C16.R11" || o.Rule == "C16.R12") && !strings.HasPrefix(o.Construct, "floor:") {
 				c.add(o.Verdict, o.Construct, o.Pos, o.Detail)
 			}
 		}
